@@ -2,7 +2,7 @@
 import srvprops
 
 PROP = "C09"
-THEOREMS = ["C09_model_smoke"]
+THEOREMS = ["C09_only_success", "C09_preauth_moves"]
 
 
 def run(tier, replay=None):
